@@ -168,6 +168,11 @@ def run_case(ctx, case):
             return
         if outcome(lambda: lib.decompress(b[1])) != ("ok", data):
             bad("codec-build:" + enc, "stdlib decompress(build output) != inner bytes")
+        # the documented transform: the codec's own output at the requested level (level 0 = stored); gzip's header carries a timestamp
+        ref = lib.compress(data) if (level is None or enc == "lzma") else lib.compress(data, level)
+        same = (b[1][:4] == ref[:4] and b[1][8:] == ref[8:]) if enc == "gzip" else b[1] == ref
+        if not same:
+            bad("codec-build-level:%s:%r" % (enc, level), "build output (%d bytes) is not %s.compress(data%s) (%d bytes)" % (len(b[1]), enc, "" if level is None else ", %d" % level, len(ref)))
         if outcome(lambda: d.parse(b[1])) != ("ok", data):
             bad("codec-roundtrip:" + enc, "parse(build(x)) != x")
         for lv in ([1, 6, 9] if enc != "lzma" else [None]):
@@ -223,6 +228,19 @@ def run(ctx):
     for enc in ("zlib", "gzip", "bzip2", "lzma"):
         for level in ([None, 0, 1, 5, 9] if enc in ("zlib", "gzip") else [None, 1, 5, 9] if enc == "bzip2" else [None, 3]):
             cases.append(("codec", {"codec": enc, "level": level}, enc))
+    # one process, one sequence: every byte-aligned rotation for every group size, group sizes in ascending, descending and
+    # shuffled order (a result must not depend on which rotations were performed before)
+    if ctx.index < 3:
+        seq = [(g, a) for g in range(1, 9) for a in range(-16 * 1, 8 * g + 17, 8)]
+        if ctx.index == 1:
+            seq.reverse()
+        elif ctx.index == 2:
+            rng.shuffle(seq)
+        for g, a in seq:
+            for via in ("const", "ctx"):
+                data = bytes(rng.getrandbits(8) for _ in range(3 * g))
+                run_case(ctx, {"kind": "rot", "amount": a, "group": g, "via": via, "data": tag(data), "history": "sequence %d" % ctx.index})
+        ctx.count("rotation_history_sequences")
     if ctx.index == 0:
         ctx.count("parameter_sets", len(cases))
     for i, (kind, params, cls) in enumerate(cases):
